@@ -242,8 +242,11 @@ def ref_mol2(text):
             if not s.startswith("@<TRIPOS>"):
                 raise Illformed("bad record type indicator")
             rest = s[len("@<TRIPOS>") :]
-            if not re.match(r"^[A-Z_]+$", rest):
+            # the record name is the first word; a reader may rightly ignore what follows it on the line
+            mm = re.match(r"^([A-Z_]+)(\s.*)?$", rest)
+            if not mm:
                 raise Illformed("bad record type indicator")
+            rest = mm.group(1)
             if rest == "MOLECULE":
                 close(cur)
                 if i + 4 >= n:
@@ -536,6 +539,9 @@ def enumerate_faults(doc, fill="?!", infix="x", byte_cuts=True, num="7", only_li
                         yield {"kind": "replace-token", "line": i, "tok": j, "with": lit}
             if role == "rti":
                 yield {"kind": "rename-section", "line": i, "tok": j}
+                # the keyword itself damaged: a suffix, the last letter lost, a blank inside
+                for how in ("suffix", "shorten", "split"):
+                    yield {"kind": "damage-section", "line": i, "tok": j, "how": how}
             if role in COUNT_ROLES_SET and is_int(tok):
                 # the same value written with blanks around it (the same file) and with an explicit sign
                 yield {"kind": "pad-token", "line": i, "tok": j}
@@ -648,6 +654,14 @@ def apply_fault(doc, f):
             newtok = tok[:1] + f["fill"] + tok[1:]
     elif kind == "rename-section":
         newtok = tok.replace("@<TRIPOS>", "@<TRIPOS>X", 1) if "@<TRIPOS>" in tok else "X" + tok
+    elif kind == "damage-section":
+        if f["how"] == "suffix":
+            newtok = tok + "_X"
+        elif f["how"] == "shorten":
+            newtok = tok[:-1]
+        else:
+            k = len("@<TRIPOS>") + max(1, (len(tok) - len("@<TRIPOS>")) // 2) if tok.startswith("@<TRIPOS>") else max(1, len(tok) // 2)
+            newtok = tok[:k] + " " + tok[k:]
     elif kind == "pad-token":
         newtok = "  " + tok + "  "
     elif kind == "replace-token":
@@ -663,7 +677,7 @@ def apply_fault(doc, f):
     d = len(newtok) - len(tok)
     new = _replace(text, a, b, newtok)
     # a garbled token is no longer a structural one for a second fault
-    nflag = "F" if kind in ("garble-token", "rename-section", "replace-token", "pad-token") else flag
+    nflag = "F" if kind in ("garble-token", "rename-section", "damage-section", "replace-token", "pad-token") else flag
     toks2 = tuple(toks[:j]) + ((a, b + d, role, nflag),) + tuple((x + d, y + d, r, fl) for (x, y, r, fl) in toks[j + 1 :])
     return doc[:i] + [(new, cls, block, toks2)] + doc[i + 1 :]
 
